@@ -7,8 +7,26 @@ package discover
 //@   modifies nothing
 //@ extern func (GpuInfoList).FlashAttentionSupported
 //@   modifies nothing
-// Range assumptions on the GPU inventory (never proved: they describe the hardware).
-//@ extern func (GpuInfoList).ByLibrary
+
+// ByLibrary (C16: "every list of GPUs of one library" is what the estimator is given). The body is
+// verified (props C16: discover.(GpuInfoList).ByLibrary); what used to be trusted is now proved:
+//  * it writes nothing outside the slices it allocates (the inventory is left alone);
+//  * no group is empty (the estimator reads gpus[0]) and after i inventory entries no group holds
+//    more than i GPUs (so no GPU is entered twice into a group, and a group has at most as many
+//    GPUs as the inventory: <= 128 when the inventory has), at most one group per entry.
+// The range facts about the hardware (FreeMemory < 2^56, MinimumMemory < 2^50, <= 128 GPUs) are
+// no longer part of this contract: they are an explicit range assumption where PredictServerFit
+// receives the groups (contracts/llm). Not proved (engine: invariants that quantify over the
+// backing arrays of a slice of slices - blk(resp[g]) / fresh(&resp[g][0]) - do not terminate):
+// element-wise facts about the groups (same runner name within a group, every GPU in exactly one).
+//@ func (GpuInfoList).ByLibrary
 //@   modifies nothing
-//@   ensures forall g int :: 0 <= g && g < len(result) ==> 1 <= len(result[g]) && len(result[g]) <= 128
-//@   ensures forall g int, k int :: 0 <= g && g < len(result) && 0 <= k && k < len(result[g]) ==> result[g][k].FreeMemory < (1 << 56) && result[g][k].MinimumMemory < (1 << 50)
+//@   ensures len(l) <= 128 ==> forall g int :: 0 <= g && g < len(result) ==> 1 <= len(result[g]) && len(result[g]) <= 128
+//@   ensures forall g int :: 0 <= g && g < len(result) ==> 1 <= len(result[g]) && len(result[g]) <= len(l)
+//@   ensures len(result) <= len(l)
+//@   assert-at call len #2 : rangeindex >= -1 && rangeindex < len(l)     -- (also makes the engine visit builtin sites: it does so only for contracts with an assert-at)
+//@   ghost-at call len #2 : ghost_oi := rangeindex
+//@   loop 1 invariant len(resp) == len(libs) && len(resp) <= rangeindex + 1 && (cap(resp) == 0 || fresh(&resp[0]))
+//@   loop 1 invariant forall g int :: 0 <= g && g < len(resp) ==> 1 <= len(resp[g]) && len(resp[g]) <= rangeindex + 1
+//@   loop 2 invariant len(resp) == len(libs) && len(resp) <= ghost_oi + 1 && ghost_oi + 1 < len(l) && ghost_oi >= -1
+//@   loop 2 invariant forall g int :: 0 <= g && g < len(resp) ==> 1 <= len(resp[g]) && len(resp[g]) <= ghost_oi + 1
